@@ -306,7 +306,7 @@ impl Property for C18 {
     }
     fn cases(&self, tier: Tier) -> usize {
         match tier {
-            Tier::Quick => 40_000,
+            Tier::Quick => 300_000,
             Tier::Thorough => 1_500_000,
         }
     }
